@@ -73,6 +73,23 @@ mod mac_basic__run;
 mod mac_basic__runpar;
 mod mac_capture__exppar;
 mod mac_gensym_disj__pari;
+mod rnd_core_01__ser;
+mod rnd_core_03__pari;
+mod rnd_core_06__par;
+mod rnd_core_09__ser;
+mod rnd_core_11__pari;
+mod rnd_core_14__par;
+mod rnd_core_17__ser;
+mod rnd_core_19__pari;
+mod rnd_core_22__par;
+mod rnd_core_25__ser;
+mod rnd_core_27__pari;
+mod rnd_core_30__par;
+mod rnd_agg_03__ser;
+mod rnd_agg_05__pari;
+mod rnd_agg_08__par;
+mod rnd_agg_11__ser;
+mod rnd_agg_13__pari;
 
 fn lookup(name: &str) -> fn() -> Box<dyn Driven> {
    match name {
@@ -141,6 +158,23 @@ fn lookup(name: &str) -> fn() -> Box<dyn Driven> {
       "mac_basic__runpar" => mac_basic__runpar::make,
       "mac_capture__exppar" => mac_capture__exppar::make,
       "mac_gensym_disj__pari" => mac_gensym_disj__pari::make,
+      "rnd_core_01__ser" => rnd_core_01__ser::make,
+      "rnd_core_03__pari" => rnd_core_03__pari::make,
+      "rnd_core_06__par" => rnd_core_06__par::make,
+      "rnd_core_09__ser" => rnd_core_09__ser::make,
+      "rnd_core_11__pari" => rnd_core_11__pari::make,
+      "rnd_core_14__par" => rnd_core_14__par::make,
+      "rnd_core_17__ser" => rnd_core_17__ser::make,
+      "rnd_core_19__pari" => rnd_core_19__pari::make,
+      "rnd_core_22__par" => rnd_core_22__par::make,
+      "rnd_core_25__ser" => rnd_core_25__ser::make,
+      "rnd_core_27__pari" => rnd_core_27__pari::make,
+      "rnd_core_30__par" => rnd_core_30__par::make,
+      "rnd_agg_03__ser" => rnd_agg_03__ser::make,
+      "rnd_agg_05__pari" => rnd_agg_05__pari::make,
+      "rnd_agg_08__par" => rnd_agg_08__par::make,
+      "rnd_agg_11__ser" => rnd_agg_11__ser::make,
+      "rnd_agg_13__pari" => rnd_agg_13__pari::make,
       _ => panic!("no such program variant in this shard: {}", name),
    }
 }
